@@ -375,6 +375,22 @@ impl Scenario for ChatScn {
             Some(f) => f(self, pre, obs, post, goals),
             None => vec![],
         };
+        // registration is for the life of the connection: no step may turn a live,
+        // registered connection back into an unregistered one (it would be answered 451
+        // from then on and skipped by the teardown)
+        for i in 0..post.life.len().min(pre.life.len()) {
+            let was = pre.life[i] == crate::world::Life::Live && pre.infos[i].as_ref().map_or(false, |x| x.authenticated && !x.has_sender);
+            if was && post.life[i] == crate::world::Life::Live {
+                if let Some(x) = post.infos[i].as_ref() {
+                    if !x.authenticated {
+                        out.push(Finding {
+                            sig: "registration-lost".into(),
+                            detail: format!("after {:?} the live connection of slot {} (registered before the step) no longer counts as registered", obs.act.render(), i),
+                        });
+                    }
+                }
+            }
+        }
         if self.orphan_check {
             for p in &self.parts {
                 if matches!(post.life[p.slot], crate::world::Life::Live | crate::world::Life::Unconnected | crate::world::Life::Panicked(_)) {
